@@ -15,7 +15,7 @@ pub const RULE: &str = "case = (DNA count matrix of width 1..40 with arbitrary c
 
 pub const REQUIRED: &[&str] = &[
     "type.count", "type.frequency", "type.weight", "type.scoring", "check.involution", "check.definition",
-    "check.commutes", "check.involution_other_base", "class.background_with_null_complementary_pair", "class.position_without_observations", "class.nan_frequencies", "check.hand_built_frequency_rows", "check.mirrored_scores", "check.mirrored_score_position", "score_position.no_lookahead_rows", "score_position.too_few_lookahead_rows", "score_position.window_crosses_column", "class.finite_wildcard_column", "class.neg_inf_cells",
+    "check.commutes", "check.involution_other_base", "class.background_with_null_complementary_pair", "class.position_without_observations", "class.palindromic_with_asymmetric_wildcard", "alphabet.user_defined", "class.nan_frequencies", "check.hand_built_frequency_rows", "check.mirrored_scores", "check.mirrored_score_position", "score_position.no_lookahead_rows", "score_position.too_few_lookahead_rows", "score_position.window_crosses_column", "class.finite_wildcard_column", "class.neg_inf_cells",
     "class.sequence_with_wildcards", "class.width=1", "class.background_with_wildcard_frequency",
 ];
 
@@ -48,8 +48,129 @@ fn close(a: f32, b: f32) -> bool {
     ((a - b).abs() as f64) <= 1e-6 * (1.0 + a.abs().max(b.abs()) as f64) + 1e-7
 }
 
+// --- a user-defined nucleotide alphabet in the conventional ACGTN column order ----------------
+// (the public Symbol / ComplementableSymbol / Alphabet traits are there for that): its complement
+// permutation [3,2,1,0,4] differs from Dna's [2,3,0,1,4]
+
+#[derive(Clone, Copy, Debug, Default, PartialEq, Eq)]
+#[repr(u8)]
+pub enum Base {
+    A = 0,
+    C = 1,
+    G = 2,
+    T = 3,
+    #[default]
+    N = 4,
+}
+
+impl lightmotif::abc::Symbol for Base {
+    fn as_index(&self) -> usize {
+        *self as usize
+    }
+    fn as_ascii(&self) -> u8 {
+        b"ACGTN"[*self as usize]
+    }
+    fn from_ascii(c: u8) -> Result<Self, lightmotif::err::InvalidSymbol> {
+        match c {
+            b'A' => Ok(Base::A),
+            b'C' => Ok(Base::C),
+            b'G' => Ok(Base::G),
+            b'T' => Ok(Base::T),
+            b'N' => Ok(Base::N),
+            _ => Err(lightmotif::err::InvalidSymbol(c as char)),
+        }
+    }
+}
+
+impl lightmotif::abc::ComplementableSymbol for Base {
+    fn complement(&self) -> Self {
+        match *self {
+            Base::A => Base::T,
+            Base::T => Base::A,
+            Base::C => Base::G,
+            Base::G => Base::C,
+            Base::N => Base::N,
+        }
+    }
+}
+
+#[derive(Clone, Copy, Debug, Default, PartialEq, Eq)]
+pub struct Acgt;
+
+impl lightmotif::abc::Alphabet for Acgt {
+    type Symbol = Base;
+    type K = lightmotif::num::U5;
+    fn symbols() -> &'static [Base] {
+        &[Base::A, Base::C, Base::G, Base::T, Base::N]
+    }
+    fn as_str() -> &'static str {
+        "ACGTN"
+    }
+}
+
+const COMP_ACGT: [usize; 5] = [3, 2, 1, 0, 4];
+
+/// The four reverse complements over the user-defined alphabet, against the definition. The first
+/// case of a process runs this BEFORE anything over Dna is reverse-complemented, later cases after.
+fn custom_alphabet_case(case: u64, rng: &mut Rng, rep: &mut Report) -> bool {
+    let w = rng.range(1, 12);
+    let mut dm = DenseMatrix::<u32, lightmotif::num::U5>::new(w);
+    for i in 0..w {
+        for j in 0..5 {
+            dm[i][j] = rng.below(50) as u32 + if j == 0 { 1 } else { 0 };
+        }
+    }
+    let res = guard(|| {
+        let cm = CountMatrix::<Acgt>::new(dm.clone()).unwrap();
+        let freq = cm.to_freq(0.25);
+        let weight = freq.to_weight(None);
+        let scoring = freq.to_scoring(None);
+        let (rc, rf, rw, rs) = (cm.reverse_complement(), freq.reverse_complement(), weight.reverse_complement(), scoring.reverse_complement());
+        let back = rc.reverse_complement() == cm && rs.reverse_complement() == scoring;
+        (cm, freq, weight, scoring, rc, rf, rw, rs, back)
+    });
+    rep.cover("alphabet.user_defined");
+    match res {
+        Err(p) => {
+            rep.violate(&format!("c10.panic:{}", panic_site(&p)), case, format!("panic with a user-defined ACGTN alphabet: {}", p), J::obj().set("width", J::u(w)));
+            false
+        }
+        Ok((cm, freq, weight, scoring, rc, rf, rw, rs, back)) => {
+            if !back {
+                rep.violate("c10.involution", case, "user-defined ACGTN alphabet: rc(rc(x)) != x".into(), J::obj().set("width", J::u(w)));
+                return false;
+            }
+            for i in 0..w {
+                for s in 0..5 {
+                    let j = COMP_ACGT[s];
+                    let ok = rc.matrix()[i][s] == cm.matrix()[w - 1 - i][j]
+                        && same_f32(rf.matrix()[i][s], freq.matrix()[w - 1 - i][j])
+                        && same_f32(rw.matrix()[i][s], weight.matrix()[w - 1 - i][j])
+                        && same_f32(rs.matrix()[i][s], scoring.matrix()[w - 1 - i][j]);
+                    if !ok {
+                        rep.violate(
+                            "c10.definition",
+                            case,
+                            format!("user-defined ACGTN alphabet: count rc[{}][{}] = {}, original[{}][{}] = {} (or the frequency / weight / scoring cell differs)", i, s, rc.matrix()[i][s], w - 1 - i, j, cm.matrix()[w - 1 - i][j]),
+                            J::obj().set("width", J::u(w)),
+                        );
+                        return false;
+                    }
+                }
+            }
+            true
+        }
+    }
+}
+
 fn run_case(case: u64, rng: &mut Rng, rep: &mut Report) {
     rep.eval();
+    // even shards of cases start with the user-defined alphabet, odd ones with Dna
+    if case % 2 == 0 || case % 16 == 5 {
+        if !custom_alphabet_case(case, rng, rep) {
+            return;
+        }
+    }
     let w = if rng.chance(0.1) { 1 } else { rng.range(1, 40) };
     if w == 1 {
         rep.cover("class.width=1");
@@ -295,7 +416,27 @@ fn run_case(case: u64, rng: &mut Rng, rep: &mut Report) {
     // mirrored scores, for the log-odds matrix and for an arbitrary matrix with finite wildcard column
     let arbitrary: ScoringMatrix<Dna> = {
         let kind = *rng.pick(&[MatKind::Finite, MatKind::SmallInt, MatKind::ZeroCounts, MatKind::FewValued]);
-        crate::model::scoring::<Dna>(&gen_matrix(rng, 5, w, kind))
+        let mut rows = gen_matrix(rng, 5, w, kind);
+        if w >= 2 && rng.chance(0.12) {
+            // a reverse-palindromic motif (row i is the complement of row M-1-i over the four
+            // nucleotides, like GAATTC) whose wildcard column is NOT mirror-symmetric
+            for i in 0..w / 2 {
+                let src = rows[i].clone();
+                for s_ in 0..4 {
+                    rows[w - 1 - i][COMP[s_]] = src[s_];
+                }
+            }
+            if w % 2 == 1 {
+                let mid = w / 2;
+                rows[mid][2] = rows[mid][0];
+                rows[mid][3] = rows[mid][1];
+            }
+            for (i, r) in rows.iter_mut().enumerate() {
+                r[4] = -0.5 - i as f32;
+            }
+            rep.cover("class.palindromic_with_asymmetric_wildcard");
+        }
+        crate::model::scoring::<Dna>(&rows)
     };
     let mirrored: Vec<&ScoringMatrix<Dna>> = if nan_class { vec![&arbitrary] } else { vec![&scoring, &arbitrary] };
     for pssm in mirrored {
